@@ -18,7 +18,10 @@ it was stored under `seeded/<id>/`. `tools/eval_all.py` applies a change in a sc
 the change's own property (40 s budget, 16 workers) and, if that stays quiet, the neighbouring
 checks listed in the tool. "detected by" names the first check that exits 1 with a VIOLATION
 line. %d of %d changes are detected at the quick tier. Changes that were re-based after a later
-`fix:` commit touched the same lines say so in their `meta.json` (`ported`).
+`fix:` commit touched the same lines say so in their `meta.json` (`ported`). The literal procedure
+(`git -C /repo apply seeded/<id>/patch.diff`, `./bin/simctl check <P> --tier quick`,
+`git -C /repo checkout -- .`) gives the same answer; it was used as a spot check for C06-1 and
+C14-2 on the final machinery (both exit 1 with a VIOLATION line; `/repo` clean afterwards).
 
 | change | what it is | detected by | violation classes |
 |---|---|---|---|
